@@ -154,14 +154,15 @@ PROPS["C16"] = {
     "module": "RCE.Props.C16",
     "theorems": ["RCE.Props.C16.search_clock_indep"],
     "streams": {"quick": [S("search-plain", "plain", 64, 3, extra=["--repeat", 3]), S("search-deep", "deep", 2, 7, shards=2),
-                          dict(S("search-xcheck", "xcheck", 2400, 4, extra=["--repeat", 2]), driver="search:0")],
-                "thorough": [S("search-plain", "plain", 400, 4, extra=["--repeat", 3]), S("search-deep", "deep", 4, 7, shards=4, extra=["--repeat", 3]),
+                          dict(S("search-xcheck", "xcheck", 2400, 4, extra=["--repeat", 2]), driver="search:0"),
+                          dict(S("search-chain", "chain", 64, 3), driver="search:0")],
+                "thorough": [S("search-plain", "plain", 400, 4, extra=["--repeat", 3]), dict(S("search-chain", "chain", 800, 3), driver="search:0"), S("search-deep", "deep", 4, 7, shards=4, extra=["--repeat", 3]),
                              dict(S("search-xcheck", "xcheck", 40000, 5, extra=["--repeat", 2]), driver="search:0"),
                              {"name": "search-bench", "stream": "search", "driver": "search:0", "shards": 16, "args": ["--mode", "file", "--cases", "work/bench_cases.txt"]},
                              {"name": "search-benchkeep", "stream": "search", "driver": "search:0", "args": ["--mode", "file", "--cases", "work/bench_keep_cases.txt"]}]},
     "eval_key": "cases", "distinct_key": "distinct_cases",
     "rule": SEARCH_RULE + "; thorough: the 62 bench positions to bench::MAXDEPTH in-process, node counts and every cache write equal to the model's (the bench node total is their sum); for C16: every case is run three times in one process from a fresh cache and all outputs (info lines, bestmove, every cache insert, counters, cache checksum) "
-            "must be identical to each other and to the model's single prediction; 2400 (thorough 40000) random open positions with several queens (checks answered by checks, extensions far beyond the nominal depth) are each searched twice in a row in one thread and compared with themselves; the process-level part runs the real binary in separate processes, under 16-way CPU load, and the bench subcommand twice",
+            "must be identical to each other and to the model's single prediction; 2400 (thorough 40000) random open positions with several queens (checks answered by checks, extensions far beyond the nominal depth) are each searched twice in a row in one thread and compared with themselves; chains (stream_totals.chain_pairs): for a position A searched to depth d, every position B of A's tree at plies d-1 and d (all for d <= 2, a sample of 1200 for d = 3) is searched on the same thread right after A with the cache cleared in between, and must give the (best move, score, nodes) it gives when searched after itself; the process-level part runs the real binary in separate processes, under 16-way CPU load, and the bench subcommand twice",
     "assumptions": [],
 }
 
